@@ -633,7 +633,10 @@ static void DecodeEmulOneToTwo(Word Code) {
         else if ((DestParts.Mode == eModeRegDisp) && (DestParts.Part == RegPC)) {
             LongWord NewDist = DestParts.Val - 2;
 
-            if ((NewDist & 0x8000) != (DestParts.Val & 0x8000)) {
+            /* two less: only a negative displacement can leave the range, a small
+               positive one just becomes negative */
+
+            if ((DestParts.Val & 0x8000) && !(NewDist & 0x8000)) {
                 WrError(ErrNum_DistTooBig);
                 return;
             }
@@ -731,9 +734,11 @@ static void DecodeEmulOneToTwoX(Word Code) {
            complain on displacement overflow: */
 
         else if ((DestParts.Mode == eModeRegDisp) && (DestParts.Part == RegPC)) {
-            LongWord NewDist = DestParts.Val - 2;
+            LongWord NewDist = (DestParts.Val - 2) & 0xfffff;
 
-            if ((NewDist & 0x8000) != (DestParts.Val & 0x8000)) {
+            /* (20 bit displacement here) */
+
+            if ((DestParts.Val & 0x80000) && !(NewDist & 0x80000)) {
                 WrError(ErrNum_DistTooBig);
                 return;
             }
